@@ -104,6 +104,8 @@ class Exec:
             return ("bv", bvlit(ord(m.group(1)), 32), 32)
         if t.startswith('"'):
             return ("opq", "str:" + t)
+        if t.startswith('b"') or t.startswith("&") or t.startswith("["):
+            return ("opq", "bytes:" + t[:40])
         if re.match(r"^-?[\d.]+(e-?\d+)?f(32|64)$", t):
             return ("opq", "float:" + t)
         if t == "()":
@@ -135,6 +137,9 @@ class Exec:
         body = "\n".join(val)
         m = re.search(r"_0 = core::str::<impl str>::len\(move (_\d+)\)", body)
         if m:
+            lit = re.search(r'= const "((?:[^"\\\\]|\\\\.)*)";', body)
+            if lit:
+                return ("bv", bvlit(len(lit.group(1).encode().decode("unicode_escape").encode("latin-1", "ignore")), 64), 64)
             sm = re.search(r"= const ([\w:]+);", body)
             if sm:
                 inner = self.eval_const(sm.group(1).split("::")[-1])
